@@ -529,7 +529,84 @@ def g_handshake(rng, n, ctx):
     return out
 
 
+def g_lifecycle(rng, n, ctx):
+    """NxscopeHandler / CommHandler life cycle (connect, disconnect, stream_start/stop, writes; connect
+    failing with TimeoutError and cleaning up) with the threads, the frame queues and the link replaced
+    by recording stubs: whole histories, state compared after every call."""
+    import struct
+    import nxslib.nxscope as nxm
+    from nxslib.proto.parse import Parser
+    from nxslib.proto.parserecv import ParseRecv
+    from nxslib.proto.iframe import DParseFrame, EParseId
+    out = []
+    pr = ParseRecv(RecCb())
+    sf = ctx.sf
+    ack = DParseFrame(fid=EParseId.ACK, data=struct.pack("i", 0))
+    for _ in range(n):
+        k = rng.randrange(1, 4)
+        dev = mkdev(rng, k, rng.choice([3, 3, 1, 0]))
+        good = rng.random() < 0.8
+        items = []
+        if good:
+            items += [None] * 4                          # what _start's drop_all finds
+            items.append(DParseFrame(fid=EParseId.CMNINFO, data=bytes([k, dev.data.flags, 0])))
+            items += [None] * 4                          # what _devinfo_get's drop_all finds
+            for ch in range(k):
+                items.append(sf.frame_decode(pr.frame_chinfo_encode(dev.channel_get(ch))))
+            for _ in range(rng.randrange(0, 12)):
+                items.append(rng.choice([ack, ack, ack, DParseFrame(fid=EParseId.ACK, data=struct.pack("i", 3))]))
+            items += [None] * 12
+        else:
+            items += [None] * rng.randrange(0, 40)      # a silent device: connect gives up with TimeoutError
+        sitems = [None] * 60
+        ops = []
+        for _ in range(rng.randrange(1, 7)):
+            r = rng.random()
+            if r < 0.3:
+                ops.append(["connect"])
+            elif r < 0.5:
+                ops.append(["disconnect"])
+            elif r < 0.62:
+                ops.append(["stream_start"])
+            elif r < 0.72:
+                ops.append(["stream_stop"])
+            elif r < 0.85:
+                ops.append(["enable", rng.randrange(k), rng.choice([True, False])])
+            elif r < 0.93:
+                ops.append(["write"])
+            else:
+                ops.append(["default", rng.choice([True, False])])
+        if rng.random() < 0.7 and ops[0][0] != "connect":
+            ops.insert(0, ["connect"])
+
+        def build():
+            nx = nxm.NxscopeHandler(prelude_py.LogIntf(), Parser())
+            nx._thrd = prelude_py.FakeThread()
+            nx._comm._thrd = prelude_py.FakeThread()
+            nx._comm._q = prelude_py.ScriptQueue(list(items))
+            nx._comm._q_stream = prelude_py.ScriptQueue(list(sitems))
+            return nx
+
+        def run(ops):
+            nx = build()
+            try:
+                return prelude_py.nx_run(nx, ops)
+            finally:
+                nx._connected = False          # keep __del__ quiet
+                nx._comm._started = False
+
+        n0 = build()
+        csx = "(o CommHandler (_started F) (_thrd %s) (_intf %s) (_parse %s) (_prev_read b) (_dev N) (_q %s) (_q_stream %s))" % (
+            pyl.sx(n0._comm._thrd), pyl.sx(n0._comm._intf), ctx.pa_sx.text, pyl.sx(n0._comm._q), pyl.sx(n0._comm._q_stream))
+        nsx = pyl.RawSx("(o NxscopeHandler (_connected F) (_comm %s) (_thrd %s) (_sub_q (l)) (_stream_started F) (_ovf_cntr i0))" % (
+            csx, pyl.sx(n0._thrd)))
+        n0._connected = False
+        out.append((pyl.fn_cmd("nx_run", [nsx, ops], fuel=400), pyl.impl_result(run, ops), "life cycle history"))
+    return out
+
+
 GROUPS = {
+    "lifecycle": g_lifecycle,
     "handshake": g_handshake,
     "config": g_config,
     "reassembly": g_reassembly,
